@@ -6,6 +6,7 @@ Nothing here imports the library except `build_objects`.
 """
 from __future__ import annotations
 
+import re
 from dataclasses import dataclass, field, replace
 from typing import Optional, Tuple, Union
 from xml.sax.saxutils import escape, quoteattr
@@ -462,7 +463,7 @@ DEFAULT_ATTRS = {
 
 def render_xml(doc: Doc, style: str = "xtce", comments=None, whitespace: bool = False,
                tree: Optional[El] = None, bool_case: str = "lower", omit_defaults: bool = False,
-               text_style: str = "plain", extra_attrs: bool = False) -> bytes:
+               text_style: str = "plain", extra_attrs: bool = False, xml_encoding: str = "UTF-8", padded_numbers: bool = False) -> bytes:
     """Serialise.  comments: None | 'all' | set of position indices (see count_positions).
     text_style: how element text and attribute values are spelled - 'plain', 'charref' (first character as a numeric character reference,
     decimal and hexadecimal alternating), 'entity' (element text through general entities declared in an internal DTD subset; attribute
@@ -512,6 +513,14 @@ def render_xml(doc: Doc, style: str = "xtce", comments=None, whitespace: bool = 
 
     def emit(e: El, depth: int, is_root=False):
         av = dict(e.attrs)
+        if padded_numbers and e.tag == "Enumeration" and re.fullmatch(r"-?\d+", str(av.get("value", ""))):
+            # integers spelled as tables often spell them: zero-padded to a common width (int() reads "007" and "-02" as 7 and -2)
+            v_ = str(av["value"])
+            av["value"] = ("-" + v_[1:].zfill(3)) if v_.startswith("-") else v_.zfill(3)
+        if padded_numbers and "sizeInBits" in av and str(av["sizeInBits"]).isdigit():
+            av["sizeInBits"] = str(av["sizeInBits"]).zfill(2)
+        if extra_attrs and e.tag in ("ParameterRefEntry", "ContainerRefEntry"):
+            av["shortDescription"] = "as used in this container"      # the schema lets an entry carry a description of its own
         if extra_attrs and e.tag in ("IntegerParameterType", "FloatParameterType", "EnumeratedParameterType"):
             # attributes of the schema that describe the engineering value, not the encoding: they change nothing about how bits are read
             if e.tag == "IntegerParameterType":
@@ -557,6 +566,9 @@ def render_xml(doc: Doc, style: str = "xtce", comments=None, whitespace: bool = 
             out.append(f'<{pfx}AncillaryDataSet><{pfx}AncillaryData name="source">bench 3</{pfx}AncillaryData></{pfx}AncillaryDataSet>')
         if e.text is not None:
             out.append(spell_text(e.text))
+            if comments == "all" and e.text != "" and e.text.strip() == "":
+                # text that consists of blanks only is still the element's text when a comment follows it inside the element
+                out.append("<!-- after blank text -->")
         for k in e.children:
             if want_comment():
                 out.append(ws(depth + 1) + f"<!-- c{pos[0]} -->")
@@ -573,6 +585,12 @@ def render_xml(doc: Doc, style: str = "xtce", comments=None, whitespace: bool = 
     if entities:
         decl = "".join('<!ENTITY %s "%s">' % (n, escape(t, {'"': "&quot;", "%": "&#37;"})) for t, n in entities.items())
         out.insert(1, f"<!DOCTYPE {pfx}SpaceSystem [{decl}]>\n")
+    if xml_encoding != "UTF-8":
+        # the document stored in another character encoding, as its XML declaration says (UTF-16 comes with its byte order mark)
+        try:
+            return ("".join(["<?xml version='1.0' encoding='%s'?>\n" % xml_encoding] + out[1:])).encode(xml_encoding)
+        except UnicodeEncodeError:
+            pass
     return "".join(out).encode("utf-8")
 
 
@@ -770,6 +788,10 @@ def doc_xml(doc: Doc, style: str = "xtce", **kw) -> bytes:
             more["omit_defaults"] = True
         if "extra_attrs" not in kw and (c >> 4) % 2 == 0:
             more["extra_attrs"] = True
+        if "padded_numbers" not in kw and (c >> 7) % 2 == 0:
+            more["padded_numbers"] = True
+        if "xml_encoding" not in kw and (c >> 5) % 4 < 2:
+            more["xml_encoding"] = ("UTF-16", "ISO-8859-1")[(c >> 5) % 4]   # every fourth document each; ISO-8859-1 only where the text fits
         return plain if ts == "plain" and not more else render_xml(doc, style, text_style=ts, **more, **kw)
     return render_xml(doc, style, **kw)
 
